@@ -313,6 +313,20 @@ def run_task(args):
         else:
             obs, npaths = gen_obligations(E, C, cfg, prop)
         res['paths'] = npaths
+        # vacuity guard: the hypotheses of every path / lemma must be satisfiable (a contradictory requires,
+        # assumed contract or lemma hypothesis would discharge everything)
+        seen_pc = {}
+        for ob in obs:
+            pk = (ob.get('path'), len(ob['pc']))
+            if pk in seen_pc or ob['kind'] in ('div0', 'pre'):
+                continue
+            so = z3.Solver()
+            so.set('timeout', 3000)
+            so.add(*ob['pc'])
+            seen_pc[pk] = so.check()
+            if seen_pc[pk] == z3.unsat:
+                res['error'] = f"vacuity: contradictory hypotheses on {ob['id']}"
+        res['vacuity_checked'] = len(seen_pc)
         for ob in obs:
             status, backend, secs, model, reason = prove(ob['pc'], ob['goal'], TIMEOUT_MS[tier], cross=(tier == 'thorough' and not mutant))
             rec = {k: ob[k] for k in ('key', 'id', 'config', 'kind', 'text')}
